@@ -3,27 +3,46 @@ EXTENDS Guarded
 Kinds == {"plain", "bulk", "bulk1"}
 ApiCodes == {429, 502, 503, 504, 401, 403, 404, 400, 409, 500}
 ItemCodes == {429, 502, 503, 504, 400, 409}
-Base == {Ok, O("connTimeout", 0, {}), O("connError", 0, {}), O("transportOther", 0, {})} \cup {Api(c) : c \in ApiCodes}
-BulkAll == {Bulk(S) : S \in (SUBSET ItemCodes) \ {{}}}
-BulkOne == {Bulk({c}) : c \in ItemCodes}
+ApiShapes == {"es", "errstr", "notype", "noerror", "empty", "none", "str", "bytes", "list"}
+ItemShapes == {"es", "errstr"}
+Plain(k) == O(k, 0, {}, "")
+NonApi == {Ok, Plain("connTimeout"), Plain("connError"), Plain("transportOther")}
 
-(* full alphabet *)
+(* full alphabet: every status x every body shape, every set of item statuses x every item error shape *)
+Base == NonApi \cup {ApiS(c, s) : c \in ApiCodes, s \in ApiShapes}
+BulkAll == {BulkS(S, s) : S \in (SUBSET ItemCodes) \ {{}}, s \in ItemShapes}
+BulkOne == {BulkS({c}, s) : c \in ItemCodes, s \in ItemShapes}
 AlphaFull(kd) == IF kd = "plain" THEN Base ELSE IF kd = "bulk" THEN Base \cup BulkAll ELSE Base \cup BulkOne
 
-(* reduced alphabets for the exhaustive enumeration of all paths up to the full budget of 11 calls: *)
-(* two transient letters per kind and two (quick) or four (thorough) final letters                  *)
-AlphaPathsT(kd) ==
-    IF kd = "plain" THEN {O("connTimeout", 0, {}), Api(503), Ok, Api(401), Api(404), O("transportOther", 0, {})}
-    ELSE IF kd = "bulk" THEN {O("connError", 0, {}), Bulk({429, 503}), Ok, Bulk({429, 400}), Api(403), Bulk({409})}
-    ELSE {Bulk({429}), Api(429), Ok, Bulk({400}), Api(500), O("transportOther", 0, {})}
-AlphaPathsQ(kd) ==
-    IF kd = "plain" THEN {O("connTimeout", 0, {}), Api(503), Ok, Api(404)}
-    ELSE IF kd = "bulk" THEN {O("connError", 0, {}), Bulk({429, 503}), Ok, Bulk({429, 400})}
-    ELSE {Bulk({429}), Api(429), Ok, O("transportOther", 0, {})}
+(* every status / set of item statuses, Elasticsearch-style bodies only (full history, small budget) *)
+AlphaEs(kd) == {o \in AlphaFull(kd) : o.shape \in {"", "es"}}
 
-(* simulation: all transient letters, a few final ones, so that behaviours get long *)
-AlphaHeavy(kd) == {o \in AlphaFull(kd) : IsTransient(o)} \cup {Ok, Api(401), Api(404), O("transportOther", 0, {})}
-                  \cup (IF kd = "bulk" THEN {Bulk({429, 400}), Bulk({409})} ELSE IF kd = "bulk1" THEN {Bulk({400})} ELSE {})
+(* every body shape x representative statuses (full history, small budget) *)
+AlphaShapes(kd) ==
+    {Ok, Plain("connTimeout")} \cup {ApiS(c, s) : c \in {503, 429, 404, 401}, s \in ApiShapes}
+    \cup (IF kd = "bulk" THEN {BulkS(S, s) : S \in {{429}, {429, 503}, {429, 400}, {400}}, s \in ItemShapes}
+          ELSE IF kd = "bulk1" THEN {BulkS(S, s) : S \in {{429}, {400}}, s \in ItemShapes} ELSE {})
+
+(* reduced alphabets for the exhaustive enumeration of all paths up to the full budget of 11 calls: *)
+(* two transient letters per kind and success (quick) or success and three fatal letters (thorough); *)
+(* fatal letters at every depth are covered by the harness's edge cover in both tiers               *)
+AlphaPathsT(kd) ==
+    IF kd = "plain" THEN {Plain("connTimeout"), ApiS(503, "str"), Ok, ApiS(401, "none"), ApiS(404, "empty"), Plain("transportOther")}
+    ELSE IF kd = "bulk" THEN {Plain("connError"), Bulk({429, 503}), Ok, Bulk({429, 400}), ApiS(403, "list"), Bulk({409})}
+    ELSE {Bulk({429}), ApiS(429, "errstr"), Ok, Bulk({400}), ApiS(500, "noerror"), Plain("transportOther")}
+AlphaPathsQ(kd) ==
+    IF kd = "plain" THEN {Plain("connTimeout"), ApiS(503, "str"), Ok}
+    ELSE IF kd = "bulk" THEN {Plain("connError"), Bulk({429, 503}), Ok}
+    ELSE {Bulk({429}), ApiS(429, "errstr"), Ok}
+
+(* simulation: all transient letters with Elasticsearch-style bodies, one transient letter per other body shape  *)
+(* (string item errors for two of the bulk letters), a few final ones, so that behaviours get long              *)
+ShapeSample == {ApiS(429, "errstr"), ApiS(502, "str"), ApiS(503, "str"), ApiS(504, "bytes"), ApiS(503, "none"),
+                ApiS(429, "empty"), ApiS(502, "notype"), ApiS(504, "noerror"), ApiS(503, "list")}
+AlphaHeavy(kd) == {o \in AlphaEs(kd) : IsTransient(o)} \cup ShapeSample
+                  \cup {Ok, Api(401), ApiS(404, "str"), Plain("transportOther")}
+                  \cup (IF kd = "bulk" THEN {Bulk({429, 400}), Bulk({409}), BulkS({429}, "errstr"), BulkS({503, 504}, "errstr")}
+                        ELSE IF kd = "bulk1" THEN {Bulk({400}), BulkS({429}, "errstr")} ELSE {})
 
 J0 == {0}
 JSim == {0, 512, 1023}
